@@ -96,19 +96,19 @@ def _idle_with_work(F):
 
 BUS_PROPS = {
     'C01': dict(oracle=lambda F, w: oracle.c01(F),
-                profiles=[('clean', 2), ('single', 2), ('multi', 3), ('multi_fwd', 2), ('parallel', 2), ('redispatch', 3), ('nested', 2), ('errors', 2), ('stalls', 1)]),
+                profiles=[('clean', 2), ('single', 2), ('multi', 3), ('multi_fwd', 2), ('parallel', 2), ('redispatch', 3), ('nested', 2), ('errors', 2), ('stalls', 1), ('late_reg', 3)]),
     'C02': dict(oracle=lambda F, w: oracle.c02(F),
                 profiles=[('clean', 1), ('single', 2), ('multi', 3), ('multi_fwd', 2), ('backlog', 4), ('gap', 2), ('stalls', 2)]),
     'C03': dict(oracle=lambda F, w: oracle.c03(F),
-                profiles=[('clean', 2), ('single', 2), ('nested', 3), ('multi', 3), ('multi_fwd', 2), ('errors', 2), ('deep', 1), ('backlog', 1)]),
+                profiles=[('clean', 2), ('single', 2), ('nested', 3), ('multi', 3), ('multi_fwd', 2), ('errors', 2), ('deep', 1), ('backlog', 1), ('await_any', 2)]),
     'C04': dict(oracle=lambda F, w: oracle.c04(F),
-                profiles=[('clean', 3), ('single', 2), ('gap', 3), ('gap_fwd', 2), ('nested', 3), ('multi', 2), ('deep', 1)]),
+                profiles=[('clean', 3), ('single', 2), ('gap', 3), ('gap_fwd', 2), ('nested', 3), ('multi', 2), ('deep', 1), ('await_any', 3), ('await_any_clean', 2)]),
     'C05': dict(oracle=lambda F, w: oracle.c05(F),
-                profiles=[('clean', 3), ('backlog', 3), ('gap', 2), ('multi', 2), ('nested', 2)]),
+                profiles=[('clean', 3), ('backlog', 3), ('gap', 2), ('multi', 2), ('nested', 2), ('await_any', 2)]),
     'C06': dict(oracle=lambda F, w: oracle.c06(F),
-                profiles=[('clean', 1), ('multi', 4), ('nested', 2), ('parallel', 2), ('stalls', 2), ('gap', 2), ('multi_fwd', 2)]),
+                profiles=[('clean', 1), ('multi', 4), ('nested', 2), ('parallel', 2), ('stalls', 2), ('gap', 2), ('multi_fwd', 2), ('multi_stop', 4)]),
     'C07': dict(oracle=lambda F, w: oracle.c07(F),
-                profiles=[('topo', 5), ('topo_traffic', 3), ('multi_fwd', 2)]),
+                profiles=[('topo', 5), ('topo_traffic', 4), ('topo_redispatch', 3), ('multi_fwd', 2)]),
     'C08': dict(oracle=lambda F, w: oracle.c08(F), watch=completion_watch,
                 profiles=[('topo', 4), ('topo_traffic', 2), ('multi_fwd', 3), ('nested', 2), ('redispatch', 2), ('clean', 1), ('errors', 1)]),
     'C09': dict(oracle=lambda F, w: oracle.c09(F),
